@@ -421,6 +421,13 @@ def main(prop, tier, seed, replay):
     if prop not in CHECKS:
         print("no check for %s" % prop)
         return 2
+    if replay:
+        import replay as rp
+        try:
+            return rp.main(prop, replay)
+        except BuildError as e:
+            print("build failed: %s\n%s" % (e.what, e.log[-2000:]))
+            return 1
     rep = Report(prop, tier, seed)
     rep.k1_nontrivial = 0
     rep.k3_nontrivial = 0
